@@ -9,7 +9,7 @@ ALNUM = b"0123456789ABCDEFGHIJKLMNOPQRSTUVWXYZ $%*+-./:"
 C39PLAIN = b"0123456789ABCDEFGHIJKLMNOPQRSTUVWXYZ-. $/+%"
 CBDATA = b"0123456789-$:/.+"
 ONED = ["EAN13", "EAN8", "UPCA", "UPCE", "C128", "C93", "C39", "ITF", "CBAR"]
-KEYS = ("op", "sym", "c", "ec", "rd", "th", "h", "mg", "pad", "scale", "rot", "mir")
+KEYS = ("op", "sym", "c", "ec", "rd", "th", "al", "h", "mg", "pad", "scale", "rot", "mir")
 # counterexamples found by earlier runs: (symbology, content, pad, scale, rot, TRY_HARDER, reader)
 REGRESSIONS = [("UPCE", "1694148", 10, 2, 180, 0, "own"), ("UPCE", "1694148", 10, 4, 270, 1, "multi"), ("UPCE", "0100242", 10, 2, 180, 0, "own")]
 SHOW = KEYS + ("werr", "w0", "h0", "lead", "trail", "w", "hh", "text", "err", "kind", "orient", "fmt", "mirf", "derr", "dkind", "panic")
@@ -77,7 +77,12 @@ def content(rng, sym, big):
 
 
 def pose_event(case, c, rd, ec, h, mg=-1):
-    return dict(op="pose", sym=case["sym"], c=list(c), ec=ec, rd=rd, th=case["th"], h=h, mg=mg, pad=case["pad"], scale=case["scale"],
+    # ITF: every other pose passes ALLOWED_LENGTHS = [len(content)], a hint the row decoder consumes on every attempt (forward,
+    # reversed, turned): hints must survive the retry logic
+    al = 1 if case["sym"] == "ITF" and (case["pad"] + case["scale"] + case["rot"] // 90) % 2 == 0 else 0
+    if al and (case["pad"] + case["rot"] // 90) % 3 == 0:
+        c = list(c)[:4]          # a length only the hint allows (the reader's default lengths are 6, 8, .. 14 and longer)
+    return dict(op="pose", sym=case["sym"], c=list(c), ec=ec, rd=rd, th=case["th"], al=al, h=h, mg=mg, pad=case["pad"], scale=case["scale"],
                 rot=case["rot"], mir=case["mir"], b=[], bw=0, bh=0)
 
 
